@@ -517,20 +517,19 @@ class C15(Prop):
     # -- shards -----------------------------------------------------------------------------
     def shards(self, tier):
         n = len(universe(tier))
-        res = []
+        res = [["var", 0]]
         for i in range(n):
             res.append(["pairs", i])
-        for i in range(n):
-            res.append(["laws", i])
         res.append(["sort", "SU", []])
         for i in range(len(SU)):
             res.append(["sort", "SU", [i]])
             for j in range(len(SU)):
                 res.append(["sort", "SU", [i, j]])
+        for i in range(n):
+            res.append(["laws", i])
         if tier == "thorough":
             for i in range(len(U_QUICK)):
                 res.append(["sort", "U", [i]])
-        res.append(["var", 0])
         return res
 
     def run_shard(self, shard, tier, acc):
